@@ -34,7 +34,7 @@ WRAPPERS = {
     'AffTree::terminals': ('Iterator::map(Tree::terminals(self.tree), closure {closure#0}[])', ['$1.value'], 'the values of the arena tree\'s terminals'),
     'AffTree::decisions': ('Iterator::map(Tree::decisions(self.tree), closure {closure#0}[])', ['$1.value'], 'the values of the arena tree\'s decisions'),
 }
-FLOORS = {'C13.R10': 19, 'C13.R1': 3, 'C13.R2': 3, 'C13.R3': 2, 'C13.R4': 9, 'C13.R5': 6, 'C13.R6': 10, 'C13.R7': 6, 'C13.R8': 3, 'C13.R9': 1}
+FLOORS = {'C13.R10': 20, 'C13.R1': 3, 'C13.R2': 3, 'C13.R3': 2, 'C13.R4': 9, 'C13.R5': 6, 'C13.R6': 10, 'C13.R7': 6, 'C13.R8': 3, 'C13.R9': 1}
 EXPLANATION = 'Sibling agreement between the three traversals and pairing/ordering rules on their bookkeeping.'
 DOES_NOT_DECIDE = 'exact visiting sequences as a whole (decided through their local rules only), depth()/depth_stats aggregation, numeric tightness of size_hint'
 LIFO_POP = {'Vec::pop'}
